@@ -282,7 +282,7 @@ Lemma recv_ok : forall fuel st t ch r st' t' ch',
 Proof.
   induction fuel as [|fuel IH]; intros st t ch r st' t' ch' H Hst Ht; simpl in H.
   - inversion H; subst; auto.
-  - destruct t as [rest | sid | sts chosen | f src cin cout | p i].
+  - destruct t as [done rest | sid | sts chosen | f src cin cout | p i].
     + (* RArr *)
       destruct rest; inversion H; subst; simpl; auto.
     + (* RStr *)
@@ -362,7 +362,7 @@ Lemma close_rd_ok : forall fuel st t c st',
 Proof.
   induction fuel as [|fuel IH]; intros st t c st' H Hst; cbn [close_rd] in H.
   - inversion H; subst; auto.
-  - destruct t as [rest | sid | sts chosen | f src cin cout | p i].
+  - destruct t as [done rest | sid | sts chosen | f src cin cout | p i].
     + inversion H; subst; auto.
     + eapply close_streams_ok; eauto.
     + eapply close_streams_ok; eauto.
@@ -389,7 +389,7 @@ Lemma consume_handles_ok : forall G h,
   Forall (fun H => rd_ok (h_rd H)) (st_handles G) -> Forall (fun H => rd_ok (h_rd H)) (st_handles (consume G h)).
 Proof.
   intros G h HF. unfold consume. destruct (nth_error (st_handles G) h) as [H|] eqn:E; auto.
-  simpl. apply Forall_upd; auto. simpl. eapply Forall_nth_error in E; eauto.
+  simpl. apply Forall_upd; auto. simpl. eapply Forall_nth_error in E; eauto. exact E.
 Qed.
 
 Lemma consume_store : forall G h, st_store (consume G h) = st_store G.
@@ -467,6 +467,8 @@ Proof.
       try (apply Forall_repeat; simpl; auto; fail);
       try (apply Forall_forall; intros Hh Hin; apply in_map_iff in Hin; destruct Hin as (i & <- & _); simpl; auto; fail);
       try (apply Forall_app; split; [apply C1 | repeat constructor; apply new_parent_ok; exact Ht]).
+    1-4: apply Forall_app; split; [exact (proj2 C1) | constructor; [apply new_parent_ok; exact Ht | constructor]].
+    apply Forall_forall; intros Hh Hin; apply in_map_iff in Hin; destruct Hin as (i0 & <- & _); simpl; auto.
   - (* OMerge *)
     destruct hs as [|h0 [|h1 hs']]; [inversion H; subst; auto| |].
     { destruct (live_rd G h0); inversion H; subst; auto. }
@@ -479,7 +481,7 @@ Proof.
     destruct ss as [|s0 ss']; destruct arr as [|a0 arr']; inversion H; subst; clear H;
       repeat split; simpl; try apply M1; auto;
       try (apply Forall_app; split; [exact C2 | repeat constructor]);
-      try (apply Forall_app; split; [apply M1 | repeat constructor; apply array_stream_ok]).
+      try (apply Forall_app; split; [exact (proj1 M1) | constructor; [apply array_stream_ok | constructor]]).
   - (* OConv *)
     destruct (live_rd G h) as [t|] eqn:El; [|inversion H; subst; auto].
     pose proof (live_rd_ok _ _ _ HG El) as Ht.
@@ -560,4 +562,149 @@ Lemma reachable_ok : forall G, reachable G -> state_ok G.
 Proof.
   intros G (fuel & ops & H). destruct (run fuel init_state ops) as [bs G'] eqn:E. simpl in H. subst G'.
   eapply run_ok; eauto. apply init_ok.
+Qed.
+
+(* ------------------------------------------------------------------ statements over runs *)
+
+(* [sub t u]: [t] is [u] or a source below conversions of [u] *)
+Fixpoint conv_nodes (t : rd) : list (cfun * list item * list item) :=
+  match t with
+  | RConv f src cin cout => (f, cin, cout) :: conv_nodes src
+  | _ => []
+  end.
+
+Lemma rd_ok_conv_nodes : forall t, rd_ok t ->
+  forall f cin cout, In (f, cin, cout) (conv_nodes t) -> cout = filter_map (conv_item f) cin.
+Proof.
+  induction t as [d r | sid | sts ch | f0 src IH cin0 cout0 | p i]; simpl; intros Hok f cin cout Hin; try tauto.
+  destruct Hok as [Hc Hs]. destruct Hin as [Heq | Hin].
+  - injection Heq as <- <- <-. exact Hc.
+  - eapply IH; eauto.
+Qed.
+
+(* every reader held anywhere in a state: by a handle, as the source of a copy parent, as
+   the source of a forwarder goroutine *)
+Definition readers_of (G : state) : list rd :=
+  map h_rd (st_handles G) ++ map p_src (parents (st_store G)) ++ map f_src (st_fwds G).
+
+Lemma state_ok_readers : forall G, state_ok G -> Forall rd_ok (readers_of G).
+Proof.
+  intros G ((_ & Hp) & Hh & Hf). unfold readers_of. apply Forall_app. split; [|apply Forall_app; split].
+  - apply Forall_forall. intros t Hin. apply in_map_iff in Hin. destruct Hin as (H & <- & Hin).
+    rewrite Forall_forall in Hh. apply Hh. exact Hin.
+  - apply Forall_forall. intros t Hin. apply in_map_iff in Hin. destruct Hin as (P & <- & Hin).
+    rewrite Forall_forall in Hp. destruct (Hp P Hin) as (_ & _ & _ & _ & H5). exact H5.
+  - apply Forall_forall. intros t Hin. apply in_map_iff in Hin. destruct Hin as (F & <- & Hin).
+    rewrite Forall_forall in Hf. apply Hf. exact Hin.
+Qed.
+
+Lemma run_pipe_fifo : forall fuel ops bs G, run fuel init_state ops = (bs, G) ->
+  forall sid s, nth_error (streams (st_store G)) sid = Some s ->
+    s_sent s = s_deliv s ++ s_buf s
+    /\ List.length (s_buf s) <= eff_cap (s_cap s)
+    /\ (fst (stream_recv s) = PEOF <-> (s_sclosed s = true /\ s_deliv s = s_sent s)).
+Proof.
+  intros fuel ops bs G Hrun sid s Hs.
+  assert (HG : state_ok G) by (eapply run_ok; eauto; apply init_ok).
+  destruct HG as ((Hst & _) & _). pose proof (Forall_nth_error _ _ _ _ _ Hst Hs) as [H1 H2].
+  split; [exact H1|]. split; [exact H2|].
+  rewrite stream_recv_eof_iff. split; intros [Ha Hb]; split; auto.
+  - rewrite H1, Hb. rewrite app_nil_r. reflexivity.
+  - rewrite H1 in Hb. rewrite <- (app_nil_r (s_deliv s)) in Hb at 1.
+    apply app_inv_head in Hb. auto.
+Qed.
+
+Lemma run_copy_children : forall fuel ops bs G, run fuel init_state ops = (bs, G) ->
+  forall p P, nth_error (parents (st_store G)) p = Some P ->
+    p_pulls P = List.length (p_items P) + (if p_eof P then 1 else 0)
+    /\ forall i oc g, nth_error (p_cur P) i = Some oc -> nth_error (p_got P) i = Some g ->
+         (exists k, g = firstn k (p_items P))
+         /\ (forall c, oc = Some c -> g = firstn c (p_items P) /\ c <= List.length (p_items P))
+         /\ (nth_error (p_sawEOF P) i = Some true -> g = p_items P /\ p_eof P = true).
+Proof.
+  intros fuel ops bs G Hrun p P HP.
+  assert (HG : state_ok G) by (eapply run_ok; eauto; apply init_ok).
+  destruct HG as ((_ & Hpa) & _). pose proof (Forall_nth_error _ _ _ _ _ Hpa HP) as (_ & _ & H3 & H4 & _).
+  split; [exact H4|]. intros i oc g Hoc Hg. exact (H3 i oc g Hoc Hg).
+Qed.
+
+Lemma run_convert_filter_map : forall fuel ops bs G, run fuel init_state ops = (bs, G) ->
+  forall t f cin cout, In t (readers_of G) -> In (f, cin, cout) (conv_nodes t) ->
+    cout = filter_map (conv_item f) cin.
+Proof.
+  intros fuel ops bs G Hrun t f cin cout Ht Hin.
+  assert (HG : state_ok G) by (eapply run_ok; eauto; apply init_ok).
+  pose proof (state_ok_readers G HG) as HF. rewrite Forall_forall in HF.
+  eapply rd_ok_conv_nodes; eauto.
+Qed.
+
+(* ------------------------------------------------------------------ array-backed readers *)
+
+Definition is_arr (t : rd) : bool := match t with RArr _ _ => true | _ => false end.
+Definition arr_rest (t : rd) : list N := match t with RArr _ rest => rest | _ => [] end.
+
+(* Recv on an array reader: no store access, no select, never blocks *)
+Lemma array_recv : forall fuel st d rest ch,
+  recv (S fuel) st (RArr d rest) ch =
+    match rest with
+    | [] => (PEOF, st, RArr d rest, ch)
+    | x :: r => (PItem (IVal x), st, RArr (d ++ [x]) r, ch)
+    end.
+Proof. intros. simpl. destruct rest; reflexivity. Qed.
+
+Lemma array_close : forall fuel st d rest, close_rd (S fuel) st (RArr d rest) = (ClOk, st).
+Proof. reflexivity. Qed.
+
+Lemma merge_collect_arrays : forall ts st fw ss arr,
+  forallb is_arr ts = true ->
+  merge_collect st fw ts ss arr = (st, fw, ss, arr ++ flat_map arr_rest ts).
+Proof.
+  induction ts as [|t r IH]; intros st fw ss arr H; simpl.
+  - rewrite app_nil_r. reflexivity.
+  - simpl in H. apply andb_prop in H. destruct H as [Ht Hr].
+    destruct t; try discriminate. rewrite IH by exact Hr. simpl. rewrite app_assoc. reflexivity.
+Qed.
+
+Lemma consume_all_store : forall hs G, st_store (consume_all G hs) = st_store G.
+Proof. induction hs as [|h r IH]; intros G; simpl; auto. rewrite IH. apply consume_store. Qed.
+Lemma consume_all_fwds : forall hs G, st_fwds (consume_all G hs) = st_fwds G.
+Proof. induction hs as [|h r IH]; intros G; simpl; auto. rewrite IH. apply consume_fwds. Qed.
+
+(* Copy of an array reader: n independent array readers over the same remainder; no parent,
+   no stream, no goroutine *)
+Lemma array_copy : forall fuel G h n d rest,
+  live_rd G h = Some (RArr d rest) -> 2 <= n ->
+  exists hs', do_op fuel G (OCopy h n) =
+    (BNew (seq (List.length (st_handles G)) n),
+     mkState (st_store G) (st_fwds G) (hs' ++ repeat (mkH (RArr [] rest) true false [] false) n))
+    /\ List.length hs' = List.length (st_handles G).
+Proof.
+  intros fuel G h n d rest Hl Hn. unfold do_op. rewrite Hl.
+  assert (E : Nat.ltb n 2 = false) by (apply Nat.ltb_ge; lia). rewrite E.
+  exists (st_handles (consume G h)). rewrite consume_store, consume_fwds. split; [reflexivity|].
+  unfold consume. destruct (nth_error (st_handles G) h); simpl; auto. apply upd_length.
+Qed.
+
+(* Merge of array readers: one array reader over the concatenation of the remainders in
+   argument order (or, when nothing remains, an empty multi reader); no stream, no goroutine *)
+Lemma array_merge : forall fuel G h0 h1 hs ts,
+  nodupb (h0 :: h1 :: hs) = true -> live_rds G (h0 :: h1 :: hs) = Some ts -> forallb is_arr ts = true ->
+  exists hs', List.length hs' = List.length (st_handles G) /\
+    do_op fuel G (OMerge (h0 :: h1 :: hs)) =
+      (BNew [List.length (st_handles G)],
+       mkState (st_store G) (st_fwds G)
+               (hs' ++ [mkH (match flat_map arr_rest ts with
+                             | [] => RMul [] []
+                             | _ :: _ => RArr [] (flat_map arr_rest ts)
+                             end) true false [] false])).
+Proof.
+  intros fuel G h0 h1 hs ts Hnd Hl Ha. unfold do_op. rewrite Hnd. cbn [negb]. rewrite Hl.
+  rewrite merge_collect_arrays by exact Ha. cbn [app].
+  exists (st_handles (consume_all G (h0 :: h1 :: hs))).
+  rewrite consume_all_store, consume_all_fwds.
+  assert (HL : forall l G0, List.length (st_handles (consume_all G0 l)) = List.length (st_handles G0)).
+  { induction l as [|a l IH]; intros G0; simpl; auto. rewrite IH. unfold consume.
+    destruct (nth_error (st_handles G0) a); simpl; auto. apply upd_length. }
+  split; [apply HL|]. rewrite HL.
+  destruct (flat_map arr_rest ts); reflexivity.
 Qed.
